@@ -18,8 +18,8 @@ func init() {
 		ID: "C05", Section: "3 C05",
 		Technique: "interprocedural must-held lock sets (type-based lock identity, held-on-entry fixpoint over static callers) for guarded-by and lock re-entry; natural-loop classification for termination; callee effect summaries for blocking under lock; reviewed index-site table",
 		Meta: core.Meta{
-			Level: "other",
-			Explanation: "Decides for bfe_balance (bal_slb, bal_gslb, backend, bal_table): (a) guarded-by: every access to the mutable fields of BalanceRR, BackendRR, SubCluster and BalanceGslb happens with the owning BalanceGslb.lock held, either in the accessing function or on entry through all static callers (constructors and the start-up path from BalTable.Init, checked by who-may-call, are exempt); BalTable's map/versions under BalTable.lock; (b) no lock re-entry: no function acquires (itself or through static callees) a lock of a type it already holds (RWMutex read locks included: a recursive RLock deadlocks against a queued writer); (c) nothing blocks under a balancer lock: no channel operation, select, time.Sleep, network or file call is reachable (static callees, module code) while BalanceGslb.lock, BalanceRR.Mutex or BfeBackend.RWMutex is held; (d) termination: every loop in functions reachable from BalanceGslb.Balance / BalanceRR.Balance is a range loop or a counted loop over an induction variable with a bound not modified in the loop — the one data-dependent `for {}` (simpleBalance) is decided by separate obligations: its all-down latch is cleared only under avail && weight != 0, re-armed after the weight reset, and the error exit exists; (e) totality: non-range index sites on backend / sub-cluster lists are those of a reviewed table, each with the structural fact that keeps it in range; division/modulo by len() of a list requires the non-empty fact. Not covered: data races through aliases the type-based lock abstraction cannot see; the Go race detector's dynamic view; fairness.",
+			Level:       "other",
+			Explanation: "Decides for bfe_balance (bal_slb, bal_gslb, backend, bal_table): (a) guarded-by: every access to the mutable fields of BalanceRR, BackendRR, SubCluster and BalanceGslb happens with the owning BalanceGslb.lock held, either in the accessing function or on entry through all static callers (constructors and the start-up path from BalTable.Init, checked by who-may-call, are exempt); BalTable's map/versions under BalTable.lock; (b) no lock re-entry: no function acquires (itself or through static callees) a lock of a type it already holds (RWMutex read locks included: a recursive RLock deadlocks against a queued writer); (c) nothing blocks under a balancer lock: no channel operation, select, time.Sleep, network or file call is reachable (static callees, module code) while BalanceGslb.lock, BalanceRR.Mutex or BfeBackend.RWMutex is held; (d) termination: every loop in functions reachable from BalanceGslb.Balance / BalanceRR.Balance is a range loop or a counted loop over an induction variable with a bound not modified in the loop — the one data-dependent `for {}` (simpleBalance) is decided by separate obligations: its all-down latch is cleared only under avail && weight != 0, re-armed after the weight reset, and the error exit exists; (e) totality: non-range index sites on backend / sub-cluster lists are those of a reviewed table, each with the structural fact that keeps it in range; division/modulo by len() of a list requires the non-empty fact. Rules are structural (field objects, comparison operators in any spelling via Guard.CmpIs, loop kinds, value origins followed through private helpers and their single call sites), so helper extraction, inverted or mirrored conditions, early returns, defer Unlock and renamed locals do not change verdicts; the reviewed index/divisor tables are keyed by the enclosing function (renaming one of those functions needs the table updated). Not covered: data races through aliases the type-based lock abstraction cannot see; the Go race detector's dynamic view; fairness.",
 			RuleText:    "obligations = each guarded field access, each call made while a lock is held (re-entry, blocking), each loop reachable from Balance, each non-range index site, simpleBalance's latch stores",
 			Assumptions: []string{"lock instances are identified by the type that contains them: holding BalanceGslb.lock is taken to mean the lock of the BalanceGslb that owns the accessed sub-cluster/backend list"},
 		},
@@ -33,6 +33,12 @@ func init() {
 			{Name: "simple-latch-weakened", File: "bfe_balance/bal_slb/bal_rr.go", Old: "		if avail && backendRR.weight != 0 {\n			allBackendDown = false", New: "		if avail && (backendRR.weight != 0 || backendRR.inSlowStart) {\n			allBackendDown = false", Expect: "simple-latch"},
 			{Name: "cursor-kept-across-reload", File: "bfe_balance/bal_slb/bal_rr.go", Old: "	brr.backends = backendsNew\n	brr.sorted = false\n	brr.next = 0\n}", New: "	brr.backends = backendsNew\n	brr.sorted = false\n	if brr.next > len(backendsNew) {\n		brr.next = 0\n	}\n}", Expect: "cursor-in-range"},
 			{Name: "table-lookup-unlocked", File: "bfe_balance/bal_table.go", Old: "func (t *BalTable) lookup(clusterName string) (*bal_gslb.BalanceGslb, error) {", New: "func (t *BalTable) LookupFast(clusterName string) *bal_gslb.BalanceGslb {\n	return t.balTable[clusterName]\n}\n\nfunc (t *BalTable) lookup(clusterName string) (*bal_gslb.BalanceGslb, error) {", Expect: "guarded-by"},
+			{Name: "silent-extract-install-helper", File: "bfe_balance/bal_slb/bal_rr.go", Old: "\t// point brr.backends to backendsNew\n\tbrr.backends = backendsNew\n\tbrr.sorted = false\n\tbrr.next = 0\n}\n", New: "\tbrr.install(backendsNew)\n}\n\nfunc (brr *BalanceRR) install(list BackendList) {\n\tbrr.backends = list\n\tbrr.sorted = false\n\tbrr.next = 0\n}\n", Silent: true},
+			{Name: "silent-nonempty-gate-mirrored", File: "bfe_balance/bal_gslb/sub_cluster.go", Old: "\tif sub.backends.Len() == 0 {\n\t\treturn nil, fmt.Errorf(\"no backend in sub cluster [%s]\", sub.Name)\n\t}\n\n\t// balance from subcluster\n\treturn sub.backends.Balance(algor, key)\n", New: "\tif 0 < sub.backends.Len() {\n\t\t// balance from subcluster\n\t\treturn sub.backends.Balance(algor, key)\n\t}\n\treturn nil, fmt.Errorf(\"no backend in sub cluster [%s]\", sub.Name)\n", Silent: true},
+			{Name: "silent-gslb-defer-unlock", File: "bfe_balance/bal_gslb/bal_gslb.go", Old: "\tbal.lock.Lock()\n\n\tfor _, sub := range bal.subClusters {\n\t\tsub.setSlowStart(*backendConf.SlowStartTime)\n\t}\n\n\tbal.lock.Unlock()\n", New: "\tbal.lock.Lock()\n\tdefer bal.lock.Unlock()\n\n\tfor _, sub := range bal.subClusters {\n\t\tsub.setSlowStart(*backendConf.SlowStartTime)\n\t}\n", Silent: true},
+			{Name: "silent-movetonext-early-return", File: "bfe_balance/bal_slb/bal_rr.go", Old: "\tnext += 1\n\tif next >= len(backends) {\n\t\tnext = 0\n\t}\n\treturn next\n", New: "\tif next+1 >= len(backends) {\n\t\treturn 0\n\t}\n\treturn next + 1\n", Silent: true},
+			{Name: "silent-gethash-renamed-param", File: "bfe_balance/bal_slb/bal_rr.go", Old: "func GetHash(value []byte, base uint) int {\n\tvar hash uint64\n\n\tif value == nil {\n\t\thash = uint64(rand.Uint32())\n\t} else {\n\t\thash = murmur3.Sum64(value)\n\t}\n\n\treturn int(hash % uint64(base))\n}", New: "func GetHash(key []byte, mod uint) int {\n\tvar h uint64\n\n\tif key != nil {\n\t\th = murmur3.Sum64(key)\n\t} else {\n\t\th = uint64(rand.Uint32())\n\t}\n\n\treturn int(h % uint64(mod))\n}", Silent: true},
+			{Name: "silent-simple-latch-renamed", File: "bfe_balance/bal_slb/bal_rr.go", Old: "\tallBackendDown := true\n\n\tnext := brr.next\n\tfor {\n\t\tbackendRR = backends[next]\n\t\tbackend = backendRR.backend\n\n\t\tavail := backend.Avail()\n\t\tif avail && backendRR.current > 0 {\n\t\t\t// find one available backend\n\t\t\tbreak\n\t\t}\n\n\t\tif bfe_debug.DebugBal {\n\t\t\tlog.Logger.Debug(\"backend[%s],avail[%d],weight[%d]\",\n\t\t\t\tbackend.Name, avail, backendRR.weight)\n\t\t}\n\n\t\tif avail && backendRR.weight != 0 {\n\t\t\tallBackendDown = false\n\t\t}\n\n\t\t// move to next\n\t\tnext = moveToNext(next, backends)\n\n\t\tif next == brr.next {\n\t\t\t// all backends have been check\n\t\t\tif allBackendDown {\n\t\t\t\tif bfe_debug.DebugBal {\n\t\t\t\t\tlog.Logger.Debug(\"rr_bal:all backend is down\")\n\t\t\t\t}\n\t\t\t\treturn backend, fmt.Errorf(\"rr_bal:all backend is down\")\n\t\t\t} else {\n\t\t\t\tif bfe_debug.DebugBal {\n\t\t\t\t\tlog.Logger.Debug(\"rr_bal:reset backend weight\")\n\t\t\t\t}\n\t\t\t\tbrr.initWeight()\n\t\t\t\tbrr.next = 0\n\t\t\t\tnext = 0\n\t\t\t\t// check again after reset: backends may go down meanwhile\n\t\t\t\tallBackendDown = true\n", New: "\tnoneUp := true\n\n\tnext := brr.next\n\tfor {\n\t\tbackendRR = backends[next]\n\t\tbackend = backendRR.backend\n\n\t\tusable := backend.Avail()\n\t\tif usable && backendRR.current > 0 {\n\t\t\t// find one available backend\n\t\t\tbreak\n\t\t}\n\n\t\tif bfe_debug.DebugBal {\n\t\t\tlog.Logger.Debug(\"backend[%s],avail[%d],weight[%d]\",\n\t\t\t\tbackend.Name, usable, backendRR.weight)\n\t\t}\n\n\t\tif usable && 0 != backendRR.weight {\n\t\t\tnoneUp = false\n\t\t}\n\n\t\t// move to next\n\t\tnext = moveToNext(next, backends)\n\n\t\tif next == brr.next {\n\t\t\t// all backends have been check\n\t\t\tif noneUp {\n\t\t\t\tif bfe_debug.DebugBal {\n\t\t\t\t\tlog.Logger.Debug(\"rr_bal:all backend is down\")\n\t\t\t\t}\n\t\t\t\treturn backend, fmt.Errorf(\"rr_bal:all backend is down\")\n\t\t\t} else {\n\t\t\t\tif bfe_debug.DebugBal {\n\t\t\t\t\tlog.Logger.Debug(\"rr_bal:reset backend weight\")\n\t\t\t\t}\n\t\t\t\tbrr.initWeight()\n\t\t\t\tbrr.next = 0\n\t\t\t\tnext = 0\n\t\t\t\t// check again after reset: backends may go down meanwhile\n\t\t\t\tnoneUp = true\n", Silent: true},
 		},
 	})
 }
@@ -73,8 +79,8 @@ func runC05(c *core.Ctx) {
 	}
 	// start-up only: reachable solely from BalTable.Init (who-may-call)
 	startup := map[string][]string{
-		gslb + ".BalanceGslb.Init": {tbl + ".BalTable.gslbInit", tbl + ".BalTable.BalTableReload"},
-		tbl + ".BalTable.gslbInit":  {tbl + ".BalTable.Init"},
+		gslb + ".BalanceGslb.Init":    {tbl + ".BalTable.gslbInit", tbl + ".BalTable.BalTableReload"},
+		tbl + ".BalTable.gslbInit":    {tbl + ".BalTable.Init"},
 		tbl + ".BalTable.backendInit": {tbl + ".BalTable.Init"},
 	}
 	callersOf := func(name string) []string {
@@ -164,8 +170,8 @@ func runC05(c *core.Ctx) {
 	c.Min("guarded-by", 80)
 
 	// ---- (b) lock re-entry and (c) blocking under lock ---------------------------------
-	acq := map[*ssa.Function]map[string]bool{}  // lock types a function may acquire (transitively)
-	blk := map[*ssa.Function]string{}           // first blocking effect reachable
+	acq := map[*ssa.Function]map[string]bool{} // lock types a function may acquire (transitively)
+	blk := map[*ssa.Function]string{}          // first blocking effect reachable
 	all := c.P.SrcFuncs("")
 	for _, fn := range all {
 		acq[fn] = map[string]bool{}
@@ -322,13 +328,14 @@ func runC05(c *core.Ctx) {
 	}
 	sort.Slice(rfns, func(i, j int) bool { return core.FuncKey(rfns[i]) < core.FuncKey(rfns[j]) })
 	nLoops := 0
+	simple := c.P.Func(slb, "BalanceRR.simpleBalance")
 	for _, f := range rfns {
 		c.Analysed(core.FuncKey(f))
 		for i, l := range core.Loops(f) {
 			kind, detail := core.LoopKind(l)
 			nLoops++
 			key := fmt.Sprintf("%s:loop#%d", core.FuncKey(f), i)
-			if kind == "" && core.FuncKey(f) == slb+".BalanceRR.simpleBalance" {
+			if kind == "" && simple != nil && rbInRegion(c.P, simple, f) {
 				// data-dependent scan: decided by the latch obligations below
 				c.Check("loop-form", key, l.Header.Instrs[0].Pos(), true, "data-dependent scan, see simple-latch")
 				checkSimpleLatch(c, f, l)
@@ -340,12 +347,30 @@ func runC05(c *core.Ctx) {
 	c.Min("loop-form", 10)
 
 	// ---- (e) totality: index sites --------------------------------------------------------------
+	// index classes are structural: "0" (constant), "rem" (x % len), "cursor" (0 / moveToNext(...) /
+	// the BalanceRR.next field, merged by phis), "field:<name>" (load of a struct field)
 	reviewed := map[string]string{
-		slb + ".BalanceRR.simpleBalance|next":             "next is brr.next or moveToNext(...), both < len(backends) for a non-empty list; emptiness is excluded by SubCluster.balance's Len()==0 test (nonempty-gate)",
-		slb + ".randomBalance|rem":                         "i = rand % len(backs); callers pass leastConnsBalance's non-empty result (C03 eligible-return)",
-		slb + ".BalanceRR.leastConnsSmoothBalance|0":       "guarded by len(candidates) == 1",
-		slb + ".BalanceRR.leastConnsSimpleBalance|0":       "guarded by len(candidates) == 1",
-		gslb + ".BalanceGslb.subClusterBalance|bal.avail":  "bal.avail is an index computed over the published list (C03 avail-index)",
+		slb + ".BalanceRR.simpleBalance|cursor":             "next is brr.next or moveToNext(...), both < len(backends) for a non-empty list; emptiness is excluded by SubCluster.balance's Len()==0 test (nonempty-gate)",
+		slb + ".randomBalance|rem":                          "i = rand % len(backs); callers pass leastConnsBalance's non-empty result (C03 eligible-return)",
+		slb + ".BalanceRR.leastConnsSmoothBalance|0":        "guarded by len(candidates) == 1",
+		slb + ".BalanceRR.leastConnsSimpleBalance|0":        "guarded by len(candidates) == 1",
+		gslb + ".BalanceGslb.subClusterBalance|field:avail": "bal.avail is an index computed over the published list (C03 avail-index)",
+	}
+	isLenOf := func(list ssa.Value) func(ssa.Value) bool {
+		return func(v ssa.Value) bool {
+			call, ok := core.StripConv(v).(*ssa.Call)
+			if !ok {
+				return false
+			}
+			b, ok := call.Call.Value.(*ssa.Builtin)
+			return ok && b.Name() == "len" && (list == nil || rbSame(c.P, call.Call.Args[0], list))
+		}
+	}
+	isConstN := func(n string) func(ssa.Value) bool {
+		return func(v ssa.Value) bool {
+			k, ok := core.StripConv(v).(*ssa.Const)
+			return ok && k.Value != nil && k.Value.ExactString() == n
+		}
 	}
 	for _, f := range c.P.SrcFuncs(slb, gslb) {
 		k := core.FuncKey(f)
@@ -380,23 +405,30 @@ func runC05(c *core.Ctx) {
 				return
 			}
 			idx := core.Render(ia.Index)
-			switch x := ia.Index.(type) {
-			case *ssa.Phi:
-				if x.Comment != "" {
-					idx = x.Comment
+			switch x := core.StripConv(ia.Index).(type) {
+			case *ssa.Const:
+				if x.Value != nil {
+					idx = x.Value.ExactString()
 				}
 			case *ssa.BinOp:
 				if x.Op == token.REM {
 					idx = "rem"
 				}
+			case *ssa.UnOp:
+				if fa, isFA := x.X.(*ssa.FieldAddr); isFA && x.Op == token.MUL {
+					if fo := core.FieldObj(fa.X, fa.Field); fo != nil {
+						idx = "field:" + fo.Name()
+					}
+				}
+			}
+			if c05CursorValue(c.P, ia.Index, slb) {
+				idx = "cursor"
 			}
 			site := k + "|" + idx
 			reason, ok2 := reviewed[site]
 			okGuard := ok2
 			if strings.HasSuffix(site, "|0") {
-				okGuard = core.HasGuard(in.Block(), func(g core.Guard) bool {
-					return g.Pol && strings.HasPrefix(g.Str, "(builtin:len(") && strings.HasSuffix(g.Str, " == 1)")
-				})
+				okGuard = rbGuarded(c.P, in.Block(), rbCmpAtom(token.EQL, isLenOf(ia.X), isConstN("1")))
 			}
 			c.Check("index-site", site, in.Pos(), okGuard, "non-range index into a backend/sub-cluster list that is not in the reviewed table or lost its guard ("+reason+")")
 		})
@@ -421,55 +453,39 @@ func runC05(c *core.Ctx) {
 				"BalanceRR.backends is replaced and a path reaches return without resetting the scan cursor (next = 0): simpleBalance indexes backends[next] without a bound test, so a shorter list makes it panic while holding the balancer lock")
 		}
 		for i, st := range core.FieldStores(allF, nf) {
-			ok := isZero(st.Store.Val)
-			if !ok {
-				// phi of {0, moveToNext(...), loads of brr.next}
-				ok = true
-				seen := map[ssa.Value]bool{}
-				var walk func(v ssa.Value)
-				walk = func(v ssa.Value) {
-					if seen[v] {
-						return
-					}
-					seen[v] = true
-					switch x := v.(type) {
-					case *ssa.Phi:
-						for _, e := range x.Edges {
-							walk(e)
-						}
-					case *ssa.Const:
-						if !isZero(x) {
-							ok = false
-						}
-					case *ssa.Call:
-						if !core.CallIs(&x.Call, slb+".moveToNext") {
-							ok = false
-						}
-					case *ssa.UnOp:
-						if core.Render(x) != "brr.next" {
-							ok = false
-						}
-					default:
-						ok = false
-					}
-				}
-				walk(st.Store.Val)
-			}
+			ok := isZero(st.Store.Val) || c05CursorValue(c.P, st.Store.Val, slb)
 			c.Check("cursor-in-range", fmt.Sprintf("%s:next-store#%d", core.FuncKey(st.Fn), i), st.Store.Pos(), ok, "BalanceRR.next is assigned "+core.Render(st.Store.Val)+", which is neither 0 nor a wrapped moveToNext(...) position")
 		}
 		c.Min("cursor-in-range", 4)
 		if mv := c.P.Func(slb, "moveToNext"); mv != nil {
-			wraps := false
-			for _, r := range core.Returns(mv) {
-				if phi, isPhi := r.Results[0].(*ssa.Phi); isPhi {
-					for _, e := range phi.Edges {
-						if isZero(e) {
-							wraps = true
-						}
+			// every position handed out is 0 or was compared < len(list); at least one path wraps to 0
+			wraps, bounded := false, true
+			okPos := func(v ssa.Value, gs []core.Guard) {
+				if isZero(v) {
+					wraps = true
+					return
+				}
+				for _, g := range gs {
+					if g.CmpIs(token.LSS, func(x ssa.Value) bool { return rbSameExpr(x, v) }, isLenOf(nil)) {
+						return
 					}
 				}
+				bounded = false
 			}
-			c.Check("cursor-in-range", "moveToNext:wraps", mv.Pos(), wraps, "moveToNext must wrap to 0 when the incremented position reaches len(backends)")
+			for _, r := range core.Returns(mv) {
+				rv := core.RetVals(r)
+				if len(rv) == 0 {
+					continue
+				}
+				if phi, isPhi := rv[0].(*ssa.Phi); isPhi {
+					for i, e := range phi.Edges {
+						okPos(e, core.GuardsOnEdge(phi.Block().Preds[i], phi.Block()))
+					}
+				} else {
+					okPos(rv[0], core.GuardsAt(r.Block()))
+				}
+			}
+			c.Check("cursor-in-range", "moveToNext:wraps", mv.Pos(), wraps && bounded, "moveToNext must wrap to 0 when the incremented position reaches len(backends) (every returned position is 0 or tested < len)")
 		} else {
 			c.Missing(slb + ".moveToNext")
 		}
@@ -477,52 +493,109 @@ func runC05(c *core.Ctx) {
 	// emptiness gate in SubCluster.balance
 	if f := c.P.Func(gslb, "SubCluster.balance"); f != nil {
 		for _, ci := range core.Calls(f, slb+".BalanceRR.Balance") {
-			ok := core.HasGuard(ci.(ssa.Instruction).Block(), func(g core.Guard) bool {
-				return !g.Pol && strings.Contains(g.Str, "BalanceRR.Len(") && strings.HasSuffix(g.Str, " == 0)")
-			})
+			recv := ci.Common().Args[0]
+			ok := rbGuarded(c.P, ci.(ssa.Instruction).Block(), rbNonZeroAtom(func(v ssa.Value) bool {
+				call, isCall := core.StripConv(v).(*ssa.Call)
+				if !isCall {
+					return false
+				}
+				if core.CallIs(&call.Call, slb+".BalanceRR.Len") {
+					return rbSame(c.P, call.Call.Args[0], recv)
+				}
+				// len(<recv>.backends)
+				if b, isB := call.Call.Value.(*ssa.Builtin); isB && b.Name() == "len" {
+					base, isF := rbFieldLoad(call.Call.Args[0], "", "backends")
+					return isF && rbSame(c.P, base, recv)
+				}
+				return false
+			}))
 			c.Check("nonempty-gate", "SubCluster.balance", ci.Pos(), ok, "BalanceRR.Balance is reached without the sub-cluster's backend list having been tested non-empty (simpleBalance indexes it, GetHash/rand take it modulo its length)")
 		}
 		c.Min("nonempty-gate", 1)
 	} else {
 		c.Missing(gslb + ".SubCluster.balance")
 	}
-	// modulo by a length: the divisor's list must be known non-empty
+	// division / modulo by a non-constant: the divisor must be known non-zero — by a dominating test of
+	// the divisor itself, or, when it is (the length of) a parameter, by the reviewed facts about the callers
+	transferred := map[string]string{
+		slb + ".randomBalance": "callers pass leastConnsBalance's non-empty candidate list (index-site randomBalance|rem)",
+		slb + ".GetHash":       "every call site passes a total weight known to be non-zero (divisor GetHash#i below)",
+	}
+	sameVal := func(d ssa.Value) func(ssa.Value) bool {
+		d = core.StripConv(d)
+		return func(v ssa.Value) bool {
+			v = core.StripConv(v)
+			if v == d {
+				return true
+			}
+			_, l1 := v.(*ssa.UnOp)
+			_, l2 := d.(*ssa.UnOp)
+			return l1 && l2 && sameElem(v, d) // two loads of the same field path
+		}
+	}
+	// nonZero: d was tested non-zero on every way to b; a product is non-zero when its factors are
+	var nonZero func(d ssa.Value, b *ssa.BasicBlock) bool
+	nonZero = func(d ssa.Value, b *ssa.BasicBlock) bool {
+		d = core.StripConv(d)
+		switch x := d.(type) {
+		case *ssa.Const:
+			return x.Value != nil && x.Value.ExactString() != "0"
+		case *ssa.BinOp:
+			if x.Op == token.MUL {
+				return nonZero(x.X, b) && nonZero(x.Y, b)
+			}
+		}
+		return rbGuarded(c.P, b, rbNonZeroAtom(sameVal(d)))
+	}
 	for _, f := range c.P.SrcFuncs(slb, gslb) {
+		nd := 0
 		core.Instrs(f, func(in ssa.Instruction) {
 			b, ok := in.(*ssa.BinOp)
 			if !ok || (b.Op != token.REM && b.Op != token.QUO) {
 				return
 			}
-			d := core.Render(b.Y)
-			if !strings.Contains(d, "builtin:len(") && !strings.Contains(d, "base") && !strings.Contains(d, "available") {
+			d := core.StripConv(b.Y)
+			if _, isK := d.(*ssa.Const); isK {
+				return
+			}
+			if bt, isBasic := d.Type().Underlying().(*types.Basic); !isBasic || bt.Info()&types.IsInteger == 0 {
 				return
 			}
 			k := core.FuncKey(f)
-			okDiv := false
-			switch {
-			case k == slb+".randomBalance":
-				okDiv = true // callers: non-empty candidates (reviewed above)
-			case k == slb+".GetHash":
-				okDiv = true // callers pass totalWeight: checked below
-			case strings.Contains(d, "available"):
-				okDiv = core.HasGuard(in.Block(), func(g core.Guard) bool { return !g.Pol && strings.Contains(g.Str, "available") && strings.Contains(g.Str, "== 0") })
+			class := "local"
+			var prm ssa.Value = d
+			if call, isCall := d.(*ssa.Call); isCall {
+				if bi, isB := call.Call.Value.(*ssa.Builtin); isB && bi.Name() == "len" {
+					class = "len"
+					prm = core.StripConv(call.Call.Args[0])
+				}
 			}
-			c.Check("divisor", k+":"+d, in.Pos(), okDiv, "division/modulo by "+d+" without the divisor being known non-zero")
+			if pp, isP := prm.(*ssa.Parameter); isP {
+				for j, q := range f.Params {
+					if q == pp {
+						class = fmt.Sprintf("%s(param#%d)", map[bool]string{true: "len", false: "value"}[class == "len"], j)
+					}
+				}
+			}
+			nd++
+			okDiv := nonZero(d, in.Block())
+			if !okDiv && strings.Contains(class, "param#") {
+				_, okDiv = transferred[k]
+			}
+			c.Check("divisor", fmt.Sprintf("%s:%s#%d", k, class, nd), in.Pos(), okDiv, "division/modulo by "+core.Render(b.Y)+" without the divisor being known non-zero")
 		})
 	}
 	for _, f := range c.P.SrcFuncs(slb, gslb) {
 		for i, ci := range core.Calls(f, slb+".GetHash") {
 			in := ci.(ssa.Instruction)
-			arg := core.Render(ci.Common().Args[1])
-			ok := false
-			switch {
-			case strings.Contains(arg, "bal.totalWeight"):
-				ok = core.HasGuard(in.Block(), func(g core.Guard) bool { return !g.Pol && g.Str == "!(bal.totalWeight == 0)" })
-			case strings.Contains(arg, "totalWeight"):
-				// sum of weights of a non-empty candidate list, each > 0
-				ok = core.HasGuard(in.Block(), func(g core.Guard) bool { return !g.Pol && strings.Contains(g.Str, "builtin:len(") && strings.HasSuffix(g.Str, " == 0)") })
+			arg := core.StripConv(ci.Common().Args[1])
+			// the weight itself was tested non-zero ...
+			ok := nonZero(arg, in.Block())
+			if _, isPhi := arg.(*ssa.Phi); !ok && isPhi {
+				// ... or it is a sum accumulated over a candidate list that was tested non-empty (each weight > 0)
+				ok = rbGuarded(c.P, in.Block(), rbNonZeroAtom(isLenOf(nil)))
 			}
-			c.Check("divisor", fmt.Sprintf("%s:GetHash#%d", core.FuncKey(f), i), in.Pos(), ok, "GetHash(key, "+arg+") takes the hash modulo a total weight that is not known to be non-zero here")
+			c.Check("divisor", fmt.Sprintf("%s:GetHash#%d", core.FuncKey(f), i), in.Pos(), ok, "GetHash(key, "+core.Render(ci.Common().Args[1])+") takes the hash modulo a total weight that is not known to be non-zero here")
 		}
 	}
 	c.Min("divisor", 3)
@@ -544,12 +617,115 @@ func blockingCallee(cc *ssa.CallCommon) string {
 	return ""
 }
 
+// c05CursorValue: v is built only from 0, results of moveToNext(...) and loads
+// of the BalanceRR.next field, merged by phis (a position that wraps).
+func c05CursorValue(p *core.Prog, v ssa.Value, slb string) bool {
+	ok, leaf := true, false
+	seen := map[ssa.Value]bool{}
+	var walk func(v ssa.Value)
+	walk = func(v ssa.Value) {
+		v = core.StripConv(v)
+		if seen[v] {
+			return
+		}
+		seen[v] = true
+		switch x := v.(type) {
+		case *ssa.Phi:
+			for _, e := range x.Edges {
+				walk(e)
+			}
+		case *ssa.Const:
+			if !isZero(x) {
+				ok = false
+			}
+		case *ssa.Call:
+			if !core.CallIs(&x.Call, slb+".moveToNext") {
+				ok = false
+			}
+			leaf = true
+		case *ssa.UnOp:
+			if _, isNext := rbFieldLoad(x, "bal_slb.BalanceRR", "next"); !isNext {
+				ok = false
+			}
+			leaf = true
+		default:
+			ok = false
+		}
+	}
+	walk(v)
+	return ok && leaf
+}
+
+// rbNonZeroAtom: the condition establishes that a value accepted by mx is not
+// zero (x != 0, x > 0, x >= 1, in any spelling).
+func rbNonZeroAtom(mx func(ssa.Value) bool) rbAtom {
+	one := func(v ssa.Value) bool {
+		k, ok := core.StripConv(v).(*ssa.Const)
+		return ok && k.Value != nil && k.Value.ExactString() == "1"
+	}
+	zero := func(v ssa.Value) bool { return isZero(core.StripConv(v)) }
+	return func(v ssa.Value, pol bool) bool {
+		g := core.Guard{Cond: v, Pol: pol}
+		return g.CmpIs(token.NEQ, mx, zero) || g.CmpIs(token.GTR, mx, zero) || g.CmpIs(token.GEQ, mx, one)
+	}
+}
+
 // checkSimpleLatch: obligations for simpleBalance's data-dependent scan loop.
 func checkSimpleLatch(c *core.Ctx, f *ssa.Function, l *core.Loop) {
-	// the latch is the phi named allBackendDown; edges storing false must be guarded by avail && weight != 0
+	// the latch is the boolean loop variable that starts true and, while still true, leads to the error
+	// return; edges storing false must be guarded by avail && weight != 0
+	derives := func(v ssa.Value, latch *ssa.Phi) bool {
+		seen := map[ssa.Value]bool{}
+		var walk func(v ssa.Value) bool
+		walk = func(v ssa.Value) bool {
+			if v == ssa.Value(latch) {
+				return true
+			}
+			phi, ok := v.(*ssa.Phi)
+			if !ok || seen[v] {
+				return false
+			}
+			seen[v] = true
+			for _, e := range phi.Edges {
+				if walk(e) {
+					return true
+				}
+			}
+			return false
+		}
+		return walk(v)
+	}
+	errExit := func(latch *ssa.Phi) bool {
+		for _, r := range core.Returns(f) {
+			rv := core.RetVals(r)
+			if len(rv) == 2 && !isNilConst(rv[1]) && l.Header.Dominates(r.Block()) {
+				// reached from inside the loop, under the latch still being set
+				if core.HasGuard(r.Block(), func(g core.Guard) bool {
+					v, pol := rbNorm(g.Cond, g.Pol)
+					return pol && derives(v, latch)
+				}) {
+					return true
+				}
+			}
+		}
+		return false
+	}
 	var latch *ssa.Phi
 	for _, in := range l.Header.Instrs {
-		if phi, ok := in.(*ssa.Phi); ok && phi.Comment == "allBackendDown" {
+		phi, ok := in.(*ssa.Phi)
+		if !ok {
+			break
+		}
+		if bt, isB := phi.Type().Underlying().(*types.Basic); !isB || bt.Kind() != types.Bool {
+			continue
+		}
+		initTrue := false
+		for i, e := range phi.Edges {
+			if k, isK := rbBoolConst(e); isK && k && !l.Body[phi.Block().Preds[i]] {
+				initTrue = true
+			}
+		}
+		if initTrue && (latch == nil || errExit(phi)) {
 			latch = phi
 		}
 	}
@@ -576,11 +752,14 @@ func checkSimpleLatch(c *core.Ctx, f *ssa.Function, l *core.Loop) {
 			if x.Value.ExactString() == "false" && l.Body[pred] {
 				nFalse++
 				availOK, weightOK := false, false
+				isWeight := func(v ssa.Value) bool { return fieldLoadOf(v, "weight") != nil }
 				for _, g := range core.GuardsOnEdge(pred, succ) {
-					if g.Pol && strings.Contains(g.Str, "BfeBackend.Avail(") {
+					cv, pol := rbNorm(g.Cond, g.Pol)
+					if call, ok := cv.(*ssa.Call); ok && pol && core.CallIs(&call.Call, "bfe_balance/backend.BfeBackend.Avail") {
 						availOK = true
 					}
-					if b, ok := g.Cond.(*ssa.BinOp); ok && fieldLoadOf(b.X, "weight") != nil && isZero(b.Y) && ((b.Op == token.NEQ && g.Pol) || (b.Op == token.GTR && g.Pol) || (b.Op == token.EQL && !g.Pol)) {
+					gg := core.Guard{Cond: cv, Pol: pol}
+					if gg.CmpIs(token.NEQ, isWeight, isZero) || gg.CmpIs(token.GTR, isWeight, isZero) {
 						weightOK = true
 					}
 				}
@@ -599,15 +778,5 @@ func checkSimpleLatch(c *core.Ctx, f *ssa.Function, l *core.Loop) {
 	c.Check("simple-latch", "simpleBalance:rearm", l.Header.Instrs[0].Pos(), rearm,
 		"after a full cycle resets the weights the all-down latch is not re-armed: if every backend becomes unavailable after that point the scan never reaches its error exit and spins while holding the balancer lock")
 	// an error exit exists inside the loop
-	hasErr := false
-	for _, r := range core.Returns(f) {
-		rv := core.RetVals(r)
-		if len(rv) == 2 && !isNilConst(rv[1]) && l.Header.Dominates(r.Block()) {
-			// reached from inside the loop, under the latch still being set
-			if core.HasGuard(r.Block(), func(g core.Guard) bool { return g.Pol && strings.Contains(g.Str, "allBackendDown") }) {
-				hasErr = true
-			}
-		}
-	}
-	c.Check("simple-latch", "simpleBalance:error-exit", l.Header.Instrs[0].Pos(), hasErr, "the scan loop has no error exit for the all-down case")
+	c.Check("simple-latch", "simpleBalance:error-exit", l.Header.Instrs[0].Pos(), errExit(latch), "the scan loop has no error exit for the all-down case")
 }
